@@ -538,9 +538,20 @@ class World2:
                     self.v("C15", "I-chan", "taken-channel-not-refused-with-ValueError",
                            {"channel": ch, "result": repr(val)[:100]})
                 return
+        oor = False
+        if op.get("oor") is not None and a.cls in CHANNELLED:
+            # an explicit channel the 16-bit map of this block cannot hold: refused - or, if it is
+            # taken, the encoding has to carry it (check_all compares the encoded map)
+            top = 65535 if a.cls == "fpdata" else 32767
+            ch = (top + 1, top + 4465, 70000 + op["oor"], -1 if a.cls == "fpdata" else -32769, -40000)[op["oor"] % 5]
+            oor = True
+            self.stats["fault_channel_out_of_range"] += 1
         kind, val = self.call(self.adder(a), it, ch)
         self.note("add", kind, ch)
         self.transitions.add((a.cls, len(a.model), "add", kind))
+        if kind == "exc" and oor:
+            self.expect_unchanged = True
+            return
         if kind == "exc":
             self.v(self.primary(a), "I-chan" if a.cls in CHANNELLED else "I-obj", "valid-add-refused",
                    {"channel": ch, "automatic": ch is None, "exc": repr(val)[:160], "used": used[:8]})
@@ -899,6 +910,24 @@ class World2:
         a.assigned_list = None
         self.stats["callers_list_touched"] += 1
         self.note("touch_list")
+
+    def op_append_via_getter(self, op):
+        """The user changes the list the block hands out (`block.tracks.append(x)`,
+        `block.platforms.append(p)`): whatever that list is - the block's own or a copy - the block
+        must not come to hold a wrong track, nor items without channels."""
+        a = self.actor(op["a"])
+        if a is None or a.obj is None or a.cls not in ("data3d", "ft", "fpdata"):
+            return self.skip()
+        if a.cls == "fpdata":
+            thunk = lambda: a.obj.platforms.append(make_item("fpdata", a.n, 950 + self.step))  # noqa: E731
+        else:
+            bad = make_item(a.cls, a.n, 950 + self.step, a.n + 2) if op.get("k", 0) % 2 else "not a track"
+            thunk = lambda: a.obj.tracks.append(bad)  # noqa: E731
+        self.expect_unchanged = True
+        self.fault_prop = "C16" if a.cls != "fpdata" else "C15"
+        kind, _val = self.call(thunk)
+        self.stats["fault_append_via_getter"] += 1
+        self.note("append_via_getter", kind)
 
     def op_poison_encode(self, op):
         """A separately created block whose encoding fails half-way (un-encodable label in its
